@@ -9,6 +9,11 @@ use serde::{Deserialize, Serialize};
 pub(crate) struct Path {
     preemption_bound: Option<u8>,
 
+    /// Maximum number of branches of one execution. It is part of the
+    /// configuration, not of the stored progress.
+    #[cfg_attr(feature = "checkpoint", serde(skip))]
+    max_branches: usize,
+
     /// Current execution's position in the branches vec.
     ///
     /// When the execution starts, this is zero, but `branches` might not be
@@ -107,14 +112,14 @@ pub(crate) enum Thread {
 }
 
 macro_rules! assert_path_len {
-    ($branches:expr) => {{
+    ($path:expr) => {{
         assert!(
             // if we are panicking, we may be performing a branch due to a
             // `Drop` impl (e.g., for `Arc`, or for a user type that does an
             // atomic operation in its `Drop` impl). if that's the case,
             // asserting this again will double panic. therefore, short-circuit
             // the assertion if the thread is panicking.
-            $branches.len() < $branches.capacity() || std::thread::panicking(),
+            $path.branches.len() < $path.max_branches || std::thread::panicking(),
             "Model exceeded maximum number of branches. This is often caused \
              by an algorithm requiring the processor to make progress, e.g. \
              spin locks.",
@@ -128,6 +133,7 @@ impl Path {
     pub(crate) fn new(max_branches: usize, preemption_bound: Option<u8>, exploring: bool) -> Path {
         Path {
             preemption_bound,
+            max_branches,
             pos: 0,
             branches: object::Store::with_capacity(max_branches),
             exploring,
@@ -156,8 +162,9 @@ impl Path {
     }
 
     pub(crate) fn set_max_branches(&mut self, max_branches: usize) {
+        self.max_branches = max_branches;
         self.branches
-            .reserve_exact(max_branches - self.branches.len());
+            .reserve_exact(max_branches.saturating_sub(self.branches.len()));
     }
 
     /// Returns `true` if the execution has reached a point where the known path
@@ -172,7 +179,7 @@ impl Path {
 
     /// Push a new atomic-load branch
     pub(super) fn push_load(&mut self, seed: &[u8]) {
-        assert_path_len!(self.branches);
+        assert_path_len!(self);
 
         let load_ref = self.branches.insert(Load {
             values: [0; MAX_ATOMIC_HISTORY],
@@ -219,7 +226,7 @@ impl Path {
     /// Branch on spurious notifications
     pub(super) fn branch_spurious(&mut self) -> bool {
         if self.is_traversed() {
-            assert_path_len!(self.branches);
+            assert_path_len!(self);
 
             self.branches.insert(Spurious {
                 spur: false,
@@ -244,7 +251,7 @@ impl Path {
         seed: impl ExactSizeIterator<Item = Thread>,
     ) -> Option<thread::Id> {
         if self.is_traversed() {
-            assert_path_len!(self.branches);
+            assert_path_len!(self);
 
             // Find the last thread scheduling branch in the path
             let prev = self.last_schedule();
